@@ -42,6 +42,8 @@ def main():
     try:
         # where does the demo live and how is it run?
         demo_path = meta.get("demo_path", f"/tmp/seed/{pid}/tests/seeded_demo.rs")
+        mm = re.search(r"[A-Za-z0-9_./-]+\.rs", demo_path)
+        demo_path = mm.group(0) if mm else demo_path
         rel = re.sub(r"^/tmp/seed/[^/]+/", "", demo_path)
         demo_cmd = meta.get("demo_command", "cargo test --offline --test seeded_demo")
         demo_cmd = re.sub(r"cd\s+/tmp/seed/[^\s;&]+\s*(&&|;)\s*", "", demo_cmd).replace("&amp;", "&")
